@@ -190,9 +190,8 @@ class BLOB(Element):
 
     def to_set_message(self):
         if self.value is None:
-            return self.set_message_class(
-                name=self._definition.name, value=None, format=None, size=None
-            )
+            # nothing to send yet; an update may list a subset of the elements
+            return None
         return self.set_message_class(
             name=self._definition.name,
             value=self.value.binary_base64,
